@@ -207,7 +207,9 @@ func init() {
 	// cardinality ------------------------------------------------------------------------------------
 	scalarOrEnum := func(f c03Field) bool { return f.F.Kind == "scalar" || f.F.Kind == "enum" }
 	c03Reg("field-proto3-optional-remove", []string{"FIELD_SAME_CARDINALITY"},
-		fieldSites(func(f c03Field) bool { return f.Msg.File.Syntax == "proto3" && f.F.Label == "optional" && scalarOrEnum(f) }),
+		fieldSites(func(f c03Field) bool {
+			return f.Msg.File.Syntax == "proto3" && f.F.Label == "optional" && scalarOrEnum(f)
+		}),
 		func(e *c03Env, st c03Site) []c03Expect {
 			m, fl := get(e, st)
 			fl.Label = ""
@@ -261,7 +263,9 @@ func init() {
 		})
 	proto2 := func(f c03Field) bool { return f.Msg.File.Syntax == "proto2" || f.Msg.File.Syntax == "" }
 	c03Reg("field-optional-to-required", append(append([]string{}, allCardRules...), "MESSAGE_SAME_REQUIRED_FIELDS"),
-		fieldSites(func(f c03Field) bool { return proto2(f) && f.F.Label == "optional" && f.F.Kind == "scalar" && f.F.Oneof == "" }),
+		fieldSites(func(f c03Field) bool {
+			return proto2(f) && f.F.Label == "optional" && f.F.Kind == "scalar" && f.F.Oneof == ""
+		}),
 		func(e *c03Env, st c03Site) []c03Expect {
 			m, fl := get(e, st)
 			fl.Label = "required"
@@ -321,8 +325,16 @@ func init() {
 			if en == nil {
 				return ""
 			}
+			// another value means another NUMBER: an alias of the current default is the same value,
+			// and switching to it is not a documented breaking change
+			curNum := en.E.Values[0].Number
+			for _, v := range en.E.Values {
+				if v.Name == cur {
+					curNum = v.Number
+				}
+			}
 			for i, v := range en.E.Values {
-				if i > 0 && v.Name != cur && v.Number != en.E.Values[0].Number {
+				if i > 0 && v.Name != cur && v.Number != en.E.Values[0].Number && v.Number != curNum {
 					return v.Name
 				}
 			}
@@ -375,7 +387,9 @@ func init() {
 			return fieldExp([]string{"FIELD_SAME_DEFAULT"}, m, fl)
 		})
 	c03Reg("field-default-remove", []string{"FIELD_SAME_DEFAULT"},
-		fieldSites(func(f c03Field) bool { return canDefault(f) && f.F.Default != "" && !isZeroDefault(f.F.Type, f.F.Default) }),
+		fieldSites(func(f c03Field) bool {
+			return canDefault(f) && f.F.Default != "" && !isZeroDefault(f.F.Type, f.F.Default)
+		}),
 		func(e *c03Env, st c03Site) []c03Expect {
 			m, fl := get(e, st)
 			if fl.Kind == "enum" {
